@@ -81,6 +81,13 @@ if [ $RC -eq 124 ] || [ $RC -eq 137 ]; then
   echo "INCONCLUSIVE property=$ID watchdog fired after ${W}s (log $LOG)"
   exit 2
 fi
+# race reports: every pair of call chains is matched against the listed known findings (class data-race)
+if grep -q 'WARNING: DATA RACE' "$LOG" && ! grep -qE '^(panic:|fatal error:)' "$LOG"; then
+  if python3 "$ROOT/tools/race_triage.py" "$ID" "$LOG"; then
+    if [ -s "$ROOT/evidence/$ID.json" ] && ! grep -q '^BROKEN ' "$LOG"; then exit 0; fi
+    echo "BROKEN property=$ID run ended early after a listed race report (log $LOG)"; exit 2
+  fi
+fi
 # the process died or a sanitizer spoke outside an oracle: a crash of the code under test is a violation, with the log as witness
 if grep -qE '^(panic:|fatal error:|WARNING: DATA RACE)|testing: race detected|^unexpected fault address|checkptr' "$LOG"; then
   if grep -qE 'BROKEN ' "$LOG" && ! grep -q 'WARNING: DATA RACE' "$LOG"; then tail -n 40 "$LOG"; exit 2; fi
